@@ -141,7 +141,8 @@ func WConfig(prop, tier string) *Config {
 		ops := []string{"swap_in_p1_usdc_atom_D", "swap_in_p1_usdc_atom_XL", "swap_out_p1_atom_usdc_D", "swap_in_p2_elys_usdc_D", "swap_in_p2_usdc_elys_L", "swap_fail_minout_p1", "join_p1_single_atom_dust_t2", "join_p2_all_t1", "exit_p2_allbut1_lp1", "exit_p1_single_atom_lp1",
 			"perp_open_long_t1_dust", "perp_open_short_t2_dust", "perp_open_long_t3_x5", "perp_close_full_t1", "perp_bot_close_all", "llp_open_t3_dust", "llp_open_t2_x5", "llp_close_allbut1_t1", "llp_bot_close_all", "unbond_lp2_all", "bond_lp1_D",
 			"fee_tx_uusdc", "fee_tx_uatom", "fee_tx_uelys", "fee_tx_uatom_nofeed", "fee_tx_uelys_nofeed", "mc_claim_lp1", "claim_vesting_lp1", "vest_eden_lp1", "unstake_elys_lp1", "send_elys_to_burn_addr",
-			"price_atom_2", "price_atom_1", "price_atom_12", "nofeed", "nofeed_2d", "gap_1h", "gap_2d", "gap_8d", "gap_40d", "empty"}
+			"price_atom_2", "price_atom_1", "price_atom_12", "nofeed", "nofeed_2d", "gap_1h", "gap_2d", "gap_8d", "gap_40d", "empty",
+			"ext_incentive_now_lp1", "ext_incentives_two_new_denoms_lp1", "swap_batch_opposite_p1", "llp_open_t1_x3_stoploss", "perp_open_long_t1_stoploss"}
 		cfg.Oracles = []*Oracle{OracleC18()}
 		cfg.BlockFailure = true
 		cfgOps := []string{}
